@@ -129,13 +129,76 @@ Proof. intros. unfold sget. rewrite H. reflexivity. Qed.
 Lemma sset_ok : forall A i (x : A) l, i < length l -> sset i x l = Ok (overwrite i [x] l).
 Proof. intros. unfold sset. destruct (Nat.ltb_spec i (length l)); [reflexivity|lia]. Qed.
 
+Lemma nthe_upd1 : forall A i (x : A) l j, i < length l ->
+  nth_error (overwrite i [x] l) j = if j =? i then Some x else nth_error l j.
+Proof.
+  intros. rewrite nthe_overwrite_in by (cbn; lia). cbn [length].
+  destruct (Nat.eqb_spec j i).
+  - subst. destruct (Nat.ltb_spec i i); [lia|]. destruct (Nat.ltb_spec i (i + 1)); [|lia].
+    rewrite Nat.sub_diag. reflexivity.
+  - destruct (Nat.ltb_spec j i); [reflexivity|]. destruct (Nat.ltb_spec j (i + 1)); [lia|reflexivity].
+Qed.
+
+(* the ascending copy loop of memmove (destination not above the source) *)
+Lemma mv_up_ok : forall A n dst src (l : list A), dst <= src -> src + n <= length l ->
+  exists l', mv_up n dst src l = Ok l' /\ length l' = length l /\
+    forall j, nth_error l' j = if (dst <=? j) && (j <? dst + n) then nth_error l (src + (j - dst)) else nth_error l j.
+Proof.
+  induction n; intros dst src l Hd Hs; cbn [mv_up].
+  - exists l. split; [reflexivity|]. split; [reflexivity|]. intros j.
+    destruct (Nat.leb_spec dst j); destruct (Nat.ltb_spec j (dst + 0)); cbn; try reflexivity; lia.
+  - destruct (sget_ok A src l ltac:(lia)) as (e & Hg & Hn). rewrite Hg. cbn [rbind].
+    rewrite sset_ok by lia. cbn [rbind].
+    destruct (IHn (S dst) (S src) (overwrite dst [e] l) ltac:(lia) ltac:(rewrite length_overwrite; cbn [length]; lia)) as (l' & -> & L & P).
+    exists l'. split; [reflexivity|]. split; [rewrite L; apply length_overwrite; cbn [length]; lia|].
+    intros j. rewrite P, !nthe_upd1 by lia.
+    destruct (Nat.leb_spec (S dst) j); destruct (Nat.ltb_spec j (S dst + n)); destruct (Nat.leb_spec dst j);
+      destruct (Nat.ltb_spec j (dst + S n)); cbn [andb]; try lia.
+    + destruct (Nat.eqb_spec (S src + (j - S dst)) dst); [lia|]. f_equal. lia.
+    + destruct (Nat.eqb_spec j dst); [lia|reflexivity].
+    + destruct (Nat.eqb_spec j dst); [|lia]. subst j. rewrite Nat.sub_diag, Nat.add_0_r. symmetry; assumption.
+    + destruct (Nat.eqb_spec j dst); [lia|reflexivity].
+Qed.
+
+(* the descending copy loop (destination above the source) *)
+Lemma mv_down_ok : forall A n dst src (l : list A), src < dst -> dst + n <= length l ->
+  exists l', mv_down n dst src l = Ok l' /\ length l' = length l /\
+    forall j, nth_error l' j = if (dst <=? j) && (j <? dst + n) then nth_error l (src + (j - dst)) else nth_error l j.
+Proof.
+  induction n; intros dst src l Hd Hs; cbn [mv_down].
+  - exists l. split; [reflexivity|]. split; [reflexivity|]. intros j.
+    destruct (Nat.leb_spec dst j); destruct (Nat.ltb_spec j (dst + 0)); cbn; try reflexivity; lia.
+  - destruct (sget_ok A (src + n) l ltac:(lia)) as (e & Hg & Hn). rewrite Hg. cbn [rbind].
+    rewrite sset_ok by lia. cbn [rbind].
+    destruct (IHn dst src (overwrite (dst + n) [e] l) Hd ltac:(rewrite length_overwrite; cbn [length]; lia)) as (l' & -> & L & P).
+    exists l'. split; [reflexivity|]. split; [rewrite L; apply length_overwrite; cbn [length]; lia|].
+    intros j. rewrite P, !nthe_upd1 by lia.
+    destruct (Nat.leb_spec dst j); destruct (Nat.ltb_spec j (dst + n)); destruct (Nat.ltb_spec j (dst + S n)); cbn [andb]; try lia.
+    + destruct (Nat.eqb_spec (src + (j - dst)) (dst + n)); [lia|reflexivity].
+    + destruct (Nat.eqb_spec j (dst + n)); [|lia]. subst j. replace (dst + n - dst) with n by lia. symmetry; assumption.
+    + destruct (Nat.eqb_spec j (dst + n)); [lia|reflexivity].
+    + destruct (Nat.eqb_spec j (dst + n)); [lia|reflexivity].
+Qed.
+
 Lemma smove_ok : forall A dst src n (l : list A),
   dst + n <= length l -> src + n <= length l ->
   smove dst src n l = Ok (overwrite dst (firstn n (skipn src l)) l).
 Proof.
   intros. unfold smove.
   destruct (Nat.leb_spec (dst + n) (length l)); [|lia].
-  destruct (Nat.leb_spec (src + n) (length l)); [|lia]. reflexivity.
+  destruct (Nat.leb_spec (src + n) (length l)); [|lia]. cbn [andb].
+  assert (forall l', length l' = length l ->
+            (forall j, nth_error l' j = if (dst <=? j) && (j <? dst + n) then nth_error l (src + (j - dst)) else nth_error l j) ->
+            l' = overwrite dst (firstn n (skipn src l)) l) as E.
+  { intros l' L P. apply nth_error_ext; intro j. rewrite P.
+    rewrite nthe_overwrite_in by (rewrite firstn_length, skipn_length; lia).
+    rewrite firstn_length, skipn_length, nthe_firstn, nthe_skipn.
+    replace (Nat.min n (length l - src)) with n by lia.
+    destruct (Nat.leb_spec dst j); destruct (Nat.ltb_spec j (dst + n)); destruct (Nat.ltb_spec j dst); cbn [andb]; try lia; try reflexivity.
+    destruct (Nat.ltb_spec (j - dst) n); [reflexivity|lia]. }
+  destruct (Nat.leb_spec dst src).
+  - destruct (mv_up_ok A n dst src l ltac:(lia) ltac:(lia)) as (l' & -> & L & P). f_equal. apply E; assumption.
+  - destruct (mv_down_ok A n dst src l ltac:(lia) ltac:(lia)) as (l' & -> & L & P). f_equal. apply E; assumption.
 Qed.
 
 Lemma sfill_ok : forall A at_ n (x : A) l, at_ + n <= length l -> sfill at_ n x l = Ok (overwrite at_ (repeat x n) l).
